@@ -115,6 +115,16 @@ def gen_cases(sess, rng, tb, tier, findings):
         gm = gen_mapping(rng) if (use_maps and rng.random() < 0.6) else None
         plans.append(dict(cfg={'gmap': gm, 'rm': int(rng.random() < 0.4), 'no_open': int(rng.random() < 0.5), 'no_opendir': int(rng.random() < 0.5)},
                           use_maps=use_maps, root=(i % 5 == 4), n=rng.randrange(8, 30)))
+    # the two situations of the known findings, deterministically: INIT without capability bits; global mapping and a
+    # fresh Vfs built with VfsOptions::default()
+    cfg0 = {'gmap': (0, 1000, 65536), 'rm': 0, 'no_open': 1, 'no_opendir': 1}
+    b0 = Case(sess, cfg0, tb); g0 = HistoryGen(b0, rng, use_maps=False)
+    g0.mount(path=mk_path(rng, [('N', 1)], noise=False), map=None, ans=dict(okmount(rng), uid=5, gid=6))
+    b1_steps = [copy.deepcopy(st) for st in b0.steps]                 # without the INIT, for the mapping case
+    b0.do({'k': 'I', 'opts': 0, 'ierr': 0}); b0.finish()
+    for steps, fresh in ((b0.steps, 'same'), (b1_steps, 'default')):
+        A, B, n1 = variant(sess, rng, tb, cfg0, steps, len(steps), 2, fresh, [(1 << 56) | 1])
+        evals += compare(A, B, n1, findings, cfg0, 2, fresh); tie_cases.append(A)
     for pl in plans:
         base, g = base_history(sess, rng, tb, pl['cfg'], pl['n'], pl['use_maps'], pl['root']); base.finish()
         issued = sorted(set(g.pool))[:4]
@@ -186,3 +196,6 @@ def run_check(tier, seed):
         seen[k] = 1; uniq.append(f)
     for f in uniq: f['count'] = seen[json.dumps(f.get('sig'), sort_keys=True)]
     return finish(ev, PROP, uniq, broken)
+
+def replay(path):
+    return replay_generic(PROP, path, features=['persist'])
